@@ -363,6 +363,13 @@ func (p *Parser) parseObjectLiteral() ast.Expression {
 		if p.peekTokenIs(token.COMMA) {
 			p.nextToken() // move to ","
 			p.nextToken() // skip ","
+			continue
+		}
+
+		// neither "}" nor "," follows the pair: the literal is malformed
+		// or unterminated, report it instead of looping forever
+		if !p.expectPeek(token.RBRACE) {
+			return nil
 		}
 	}
 
